@@ -1944,6 +1944,7 @@ coap_retransmit(coap_context_t *context, coap_queue_t *node) {
     coap_tick_t now;
     coap_tick_t next_delay;
     int is_mcast;
+    int released = 0;
     coap_mid_t id;
 
     node->retransmit_cnt++;
@@ -1979,8 +1980,10 @@ coap_retransmit(coap_context_t *context, coap_queue_t *node) {
                      (unsigned)(next_delay * 1000 / COAP_TICKS_PER_SECOND));
     }
 
-    if (node->session->con_active)
+    if (node->session->con_active) {
       node->session->con_active--;
+      released = 1;
+    }
     /*
      * A (D)TLS failure in coap_send_pdu() disconnects the session, which
      * deletes every queue entry of the session including this node: take
@@ -2001,8 +2004,23 @@ coap_retransmit(coap_context_t *context, coap_queue_t *node) {
       return id;
     }
 
-    if (bytes_written < 0)
+    if (bytes_written < 0) {
+      if (released) {
+        /*
+         * Not transmitted. If the node is still in the sendqueue (it is retried
+         * at the next timeout) it keeps the NSTART slot that was released above.
+         */
+        coap_queue_t *q;
+
+        LL_FOREACH(context->sendqueue, q) {
+          if (q == node)
+            break;
+        }
+        if (q)
+          q->session->con_active++;
+      }
       return (int)bytes_written;
+    }
 
     return id;
   }
